@@ -59,6 +59,10 @@ pub fn programs_level(level: u8, tags: bool) -> Vec<Program> {
         vec![G::Neq(x.clone(), T::I(3)), G::Eq(x.clone(), T::I(4))],
         vec![G::Neq(x.clone(), h.clone()), G::Eq(h.clone(), T::I(9))],
         vec![G::Neq(q0.clone(), T::I(3))],
+        // a bound hidden variable nested inside the value side (either statement order)
+        vec![G::Eq(h.clone(), T::I(5)), G::Neq(x.clone(), T::list(vec![h.clone(), T::I(1)]))],
+        vec![G::Neq(x.clone(), T::list(vec![h.clone(), T::I(1)])), G::Eq(h.clone(), T::I(5))],
+        vec![G::Neq(y.clone(), T::cons(T::I(1), h.clone())), G::Eq(h.clone(), T::list(vec![T::I(2)]))],
     ];
     let mut cons = cons;
     if tags {
@@ -151,6 +155,8 @@ pub fn judge(p: &Program, a: &Ans, index: usize, family: &str, viols: &mut Vec<V
             let exp = canon_tuple(&q.iter().map(|t| s.sigma.apply(t)).collect::<Vec<_>>());
             if exp != a.terms {
                 viols.push(mk("wrong-sharing", format!("answer terms ({}) but the substitution gives ({})", a.terms.iter().map(|t| t.to_string()).collect::<Vec<_>>().join(", "), exp.iter().map(|t| t.to_string()).collect::<Vec<_>>().join(", "))));
+            } else if let Some(w) = constraints_differ(p, &q, &s, a) {
+                viols.push(mk("wrong-constraints", format!("answer {}: the reported constraints and the posted disequalities disagree for {}", a, w)));
             }
         }
     }
@@ -213,6 +219,100 @@ pub fn judge(p: &Program, a: &Ans, index: usize, family: &str, viols: &mut Vec<V
     has_cons
 }
 
+/// The reported constraints of an answer must say the same as the disequalities the program
+/// posted (projected on the answer's variables: a disequality that still needs a binding of a
+/// variable outside the answer to be violated can always be kept apart). Both are evaluated
+/// under every assignment of the answer's variables over a small universe built from the
+/// program's constants, fresh atoms and the ground instances of the constraint sides; a
+/// disagreement on any assignment is a real difference (the universe can only miss one).
+fn constraints_differ(p: &Program, q: &[T], s: &Solved, a: &Ans) -> Option<String> {
+    // reference variable -> reified variable, by the canonical numbering of the tuple
+    let tuple_ref: Vec<T> = q.iter().map(|t| s.sigma.apply(t)).collect();
+    let mut order: Vec<T> = vec![];
+    for t in &tuple_ref {
+        let mut vs = vec![];
+        t.vars(&mut vs);
+        for v in vs {
+            if !order.contains(&v) {
+                order.push(v);
+            }
+        }
+    }
+    let rename = |t: &T| {
+        t.map_vars(&mut |v| match order.iter().position(|o| o == v) {
+            Some(k) => T::A(k as u32),
+            None => v.clone(),
+        })
+    };
+    let ref_neqs: Vec<(T, T)> = s.neqs.iter().map(|(l, r)| (rename(&s.sigma.apply(l)), rename(&s.sigma.apply(r)))).collect();
+    let k = order.len();
+    if k == 0 || k > 3 {
+        return None;
+    }
+    // universe
+    let mut atoms: Vec<T> = vec![];
+    atoms_of_goals(&p.body, &mut atoms);
+    atoms.truncate(5);
+    atoms.extend(fresh_atoms(2));
+    let mut sides: Vec<T> = vec![];
+    for (l, r) in &ref_neqs {
+        sides.push(l.clone());
+        sides.push(r.clone());
+    }
+    for c in &a.cons {
+        for (l, r) in c {
+            sides.push(l.clone());
+            sides.push(r.clone());
+        }
+    }
+    let mut universe: Vec<T> = vec![];
+    for t in &sides {
+        for at in &atoms {
+            let g = t.map_vars(&mut |_| at.clone());
+            if !universe.contains(&g) {
+                universe.push(g);
+            }
+        }
+    }
+    for at in &atoms {
+        if !universe.contains(at) {
+            universe.push(at.clone());
+        }
+    }
+    let cap = match k {
+        1 => 200,
+        2 => 60,
+        _ => 16,
+    };
+    universe.truncate(cap);
+    let n = universe.len();
+    let total = n.pow(k as u32);
+    for code in 0..total {
+        let mut c = code;
+        let mut asg: Vec<T> = vec![];
+        for _ in 0..k {
+            asg.push(universe[c % n].clone());
+            c /= n;
+        }
+        let inst = |t: &T| {
+            t.map_vars(&mut |v| match v {
+                T::A(i) if (*i as usize) < k => asg[*i as usize].clone(),
+                other => other.clone(),
+            })
+        };
+        // posted: violated iff some disequality has identical sides (sides that differ only in
+        // variables outside the answer can be kept apart)
+        let posted_ok = ref_neqs.iter().all(|(l, r)| inst(l) != inst(r));
+        // reported: each constraint is "not all pairs equal"
+        let reported_ok = a.cons.iter().all(|c| !c.iter().all(|(l, r)| inst(l) == inst(r)));
+        if posted_ok != reported_ok {
+            let show: Vec<String> = asg.iter().enumerate().map(|(i, t)| format!("_.{} = {}", i, t)).collect();
+            return Some(format!("{} (posted disequalities {}, reported constraints {})", show.join(", "), if posted_ok { "hold" } else { "are violated" }, if reported_ok { "hold" } else { "are violated" }));
+        }
+    }
+    None
+}
+
 fn check(p: &Program, index: usize) -> (Vec<Violation>, bool) {
     crate::ev::progress("c03", index, &Value::Null);
     let nvars = crate::run::nvars_of(p.nq, &p.body);
@@ -235,7 +335,7 @@ fn check(p: &Program, index: usize) -> (Vec<Violation>, bool) {
 
 pub fn run(ctx: &mut Ctx) {
     let quick = ctx.quick();
-    ctx.set("rule", json!("E3: query variables bound to 13 term shapes (proper / improper / nested lists, repeated variables, five compound kinds, nested compounds, a recursive compound) x a second query variable sharing variables with the first x 12 constraint sets (disequalities on inner variables, between inner variables, multi-binding, on hidden variables, on the query variable itself, later satisfied / subsumed) x statement orders. Every answer: every variable is a reified `_` variable; the answer tuple equals the reference substitution up to renaming (one `_` per distinct unbound variable, shared across query variables); reported constraints mention only the answer's variables; LResult::constraints() of each query variable returns exactly the reported constraints that mention a variable occurring anywhere in its term. distinct_nontrivial = answers carrying constraints."));
+    ctx.set("rule", json!("E3: query variables bound to 13 term shapes (proper / improper / nested lists, repeated variables, five compound kinds, nested compounds, a recursive compound) x a second query variable sharing variables with the first x 12 constraint sets (disequalities on inner variables, between inner variables, multi-binding, on hidden variables, on the query variable itself, later satisfied / subsumed) x statement orders. Every answer: every variable is a reified `_` variable; the answer tuple equals the reference substitution up to renaming (one `_` per distinct unbound variable, shared across query variables); reported constraints mention only the answer's variables and say the same as the posted disequalities projected on the answer (evaluated under every assignment of the answer's variables over a small universe); LResult::constraints() of each query variable returns exactly the reported constraints that mention a variable occurring anywhere in its term. distinct_nontrivial = answers carrying constraints."));
     let progs = programs_level(if quick { 1 } else { 2 }, true);
     let sel: Vec<usize> = match &ctx.replay {
         Some(r) if r.family == "c03" => vec![r.index],
